@@ -3,16 +3,22 @@
  1. TLC model-checks spec/OrderedMap/MapAbs.tla (ideal ordered map + robust iterators [tab, pos, scratch, dir], every public call of
     util/Hashtable.h an action with its documented result): TypeOK, IterSafe (a cursor is never linked to a removed entry), NoSkip /
     NoTwice (a traversal that no reordering operation crossed visits everything that was present throughout, nothing twice),
-    StaysSorted (auto-sorting classes, ties free).  Vacuity: per-call coverage, and three deliberately wrong variants of the
+    StaysSorted (auto-sorting classes, ties free).  Vacuity: per-call coverage, and deliberately wrong variants of the
     specification must violate IterSafe / NoSkip / NoTwice.
- 2. spec -> code: spec/OrderedMap/MapGen.tla (two-step version: one graph node per transition) is dumped for several small instances,
-    tools/pathcover.py covers EVERY (state, call, arguments); harness/ht.cpp replays each behaviour on a real Hashtable<int,int>
-    (ASan+UBSan build) with a normal and an all-colliding hash functor, several initial capacities, and prefill blocks of 253 / 65533
-    untouched entries (index width boundaries), comparing after every step the result, the forward and backward order of both tables
-    and what every iterator shows.  Deep random behaviours from TLC -simulate (keys {1,2,3}, values {1,2}, 2 iterators, all calls) too.
+ 2. spec -> code: spec/OrderedMap/MapGen.tla (two-step version of MapAbs: one graph node per transition) is dumped for several small
+    instances, tools/pathcover.py covers EVERY (state, call, arguments); harness/ht.cpp replays each behaviour on a real
+    Hashtable<int,int> (ASan+UBSan build) with a normal and an all-colliding hash functor, several initial capacities, and prefill blocks
+    of 253 / 65533 untouched entries (table sizes 253..257 and 65533..65537: the index width switches at 255 and 65535), comparing
+    after every step the result, the forward and backward order of both tables and what every iterator shows.  Deep random behaviours
+    from TLC -simulate (keys {1,2,3}, values {1,2}, 2 iterators, all calls) are replayed too.
  3. code -> spec: seeded random long runs on Hashtable, OrderedKeysHashtable, OrderedValuesHashtable (both hash functors, the three
-    prefills), logged call by call, validated line by line by TLC against MapAbs (spec/OrderedMap/MapTrace.tla), the invariants of 1.
-    included.
+    prefills, 3 iterators), logged call by call, validated line by line by TLC against MapAbs (spec/OrderedMap/MapTrace.tla), with the
+    invariants of 1.
+
+ Verdict: a wrong result / wrong contents / wrong order, a sanitizer report, or a breach of the iterator clauses seen by the harness
+ monitor (ht.cpp `Monitor`: shows an entry of its table or the copy it kept; ++ lands on an existing entry; no skip / no twice in a
+ traversal no reordering crossed) is a VIOLATION.  An iterator that merely shows something else than the as-coded iterator model of
+ MapAbs says, with the monitor silent, is DRIFT (a rejected log is validated a second time without the iterator columns to tell the two).
 """
 import concurrent.futures as cf, json, os, re, shutil, subprocess, sys, threading, time
 import vlib
@@ -224,8 +230,8 @@ def _run(v, tier, seed, quick):
         mc_jobs = [("3keys_single_table", [1, 2, 3], [1], 1, "none", MC_SINGLE, 2), ("2keys_two_tables", [1, 2], [1], 1, "none", MC_TWO, 2),
                    ("sorted_key", [1, 2], [1, 2], 1, "key", MC_SORTED, 2), ("sorted_val", [1, 2], [1, 2], 1, "val", MC_SORTED, 2)]
         gen_jobs = [("single", [1, 2, 3], [1], 1, G_SINGLE), ("two", [1, 2], [1], 1, G_TWO), ("vals", [1, 2], [1, 2], 1, G_VALS), ("block", [1, 2, 3], [1], 1, G_BLOCK), ("twoit", [1, 2], [1], 2, G_TWOIT)]
-        sim_job = ("sim", 100, 30, 2)
-        big_every = 12
+        sim_job = ("sim", 100, 30, 1)      # one worker: the behaviours are a function of VERIF_SEED
+        big_every = 16
         rnd = []   # (cls, bad, P, slack, runs, ops)
         for cls in (0, 1, 2):
             rnd += [(cls, 0, 0, 0, 12 if cls == 0 else 8, 300), (cls, 1, 0, 2, 12 if cls == 0 else 8, 300), (cls, cls % 2, 253, (cls + 1) % 4, 10, 300), (cls, (cls + 1) % 2, 253, (cls + 3) % 4, 10, 300)]
@@ -253,10 +259,11 @@ def _run(v, tier, seed, quick):
         if key in viol_seen and len(v.violations) >= 3: return
         viol_seen.add(key); v.violation(what, replay_obj, tag=tag)
 
-    with cf.ThreadPoolExecutor(max_workers=10) as ex:
+    with cf.ThreadPoolExecutor(max_workers=12) as ex:
+        # the generation instances first: dump -> path cover -> replays is the longest chain
+        f_gen = [ex.submit(generate, *j) for j in sorted(gen_jobs, key=lambda j: j[0] not in ("single", "block", "two_big", "twoit_big"))] + [ex.submit(simulate, *sim_job)]
         f_mc = [ex.submit(model_check, *j) for j in mc_jobs + sorted_mc]
         f_wr = [ex.submit(wrong_variant, w, inv) for w, inv in (("remove_no_fixup", "IterSafe"), ("no_reorder_exemption", "NoSkip"), ("no_reorder_exemption", "NoTwice"))]
-        f_gen = [ex.submit(generate, *j) for j in gen_jobs] + [ex.submit(simulate, *sim_job)]
         f_rnd = [ex.submit(random_runs, i, *j) for i, j in enumerate(rnd)]
         f_rep = []
         for f in cf.as_completed(f_gen):
@@ -273,8 +280,7 @@ def _run(v, tier, seed, quick):
                 for slack in ((1, 3) if quick else (0, 1, 2, 3)): f_rep.append(ex.submit(replay, tag + "/%d" % big_every, sub, (slack // 2) % 2, 65533, slack))
                 f_rep.append(ex.submit(replay, tag, bf, 0, 0, 0))
             else:
-                for bad in (0, 1):
-                    for slack in ((0, 1) if quick else (0, 1, 2, 3)): f_rep.append(ex.submit(replay, tag, bf, bad, 0, slack))
+                for bad, slack in (((0, 0), (1, 1)) if quick else [(h, sl) for h in (0, 1) for sl in (0, 1, 2, 3)]): f_rep.append(ex.submit(replay, tag, bf, bad, 0, slack))
                 f_rep.append(ex.submit(replay, tag, bf, 1, 253, 1))     # most behaviours are cut at a call that is not applicable next to a block; the rest still counts
                 if tag in ("twoit", "two"): f_rep.append(ex.submit(replay, tag + "/%d" % big_every, subset(bf, tag, big_every), 0, 65533, 2))
         for f in f_mc:
